@@ -91,7 +91,8 @@ class Monitor(object):
             ctx.count('eval.event_code_to_kind')
             if o.ok:
                 k = o.value
-                if (k in ('throw', 'jump')) != bool(v.get('PAT_FIELD')) or (k in ('track', 'road')) != bool(v.get('PAT_TIMED_EVENT')):
+                # only the measurement kind is judged (field vs not field): the names of the timed kinds are the library's own business
+                if (k in ('throw', 'jump')) != bool(v.get('PAT_FIELD')):
                     ctx.violation('classifier:event_code_to_kind-disagrees-with-kind', case,
                                   'field' if v.get('PAT_FIELD') else 'timed', k)
         elif any(v.get(n) for n in self.names):
